@@ -31,6 +31,22 @@ case $PROP in
     "$B/instr" -repo "$REPO" -out "$D/ov" -sched || exit 2
     if ! go build $MODFLAG -overlay "$D/ov/overlay.json" -tags verif -o "$D/engine" ./cmd/vsched > "$D/build.log" 2>&1; then
       cat "$D/build.log"; echo "ERROR: cannot build the instrumented engine (see above)"; exit 2
+    fi
+    if [ "$ID" != replay ] && { [ "$PROP" = C05 ] || [ "$PROP" = C06 ]; }; then
+      # companions: the uninstrumented library, free-running (conformance) and under -race
+      "$B/instr" -repo "$REPO" -out "$D/ovn" || exit 2
+      if go build $MODFLAG -overlay "$D/ovn/overlay.json" -tags verif -o "$D/native" ./cmd/e1native > "$D/build.log" 2>&1; then
+        export VERIF_NATIVE_BIN="$D/native"
+      else
+        cat "$D/build.log"; echo "ERROR: cannot build the native companion"; exit 2
+      fi
+      if [ "$PROP" = C05 ]; then
+        if go build -race $MODFLAG -overlay "$D/ovn/overlay.json" -tags verif -o "$D/native.race" ./cmd/e1native > "$D/build.log" 2>&1; then
+          export VERIF_NATIVE_RACE_BIN="$D/native.race"
+        else
+          cat "$D/build.log"; echo "ERROR: cannot build the -race companion"; exit 2
+        fi
+      fi
     fi ;;
   *)
     PKG=./cmd/mc
